@@ -46,10 +46,16 @@ func newEnv() *env {
 		if id == 66 {
 			panic("handler panics on event 66")
 		}
+		if id == 44 {
+			// an asynchronous handler that publishes (on the persistent bus it runs on)
+			bp.Types[0].Pub(e.bus, 46)
+		}
 	}
 	evt.FilterHook = nil
 	e.ms = eventbus.NewMemoryStore()
-	e.bus = eventbus.New(eventbus.WithStore(e.ms))
+	// the bus's store can be closed (Shutdown closes it), as the SQLite and durable-streams
+	// stores can
+	e.bus = eventbus.New(eventbus.WithStore(closableStore{e.ms}))
 	subscribeAll := func() {
 		bp.Types[0].Sub(e.bus, 0, evt.SubOpts{})
 		bp.Types[1].Sub(e.bus, 0, evt.SubOpts{Async: true})
@@ -94,6 +100,11 @@ func newEnv() *env {
 	return e
 }
 
+// closableStore is the MemoryStore with a Close method (a no-op).
+type closableStore struct{ *eventbus.MemoryStore }
+
+func (closableStore) Close() error { return nil }
+
 // extraType is a pooled event type that is none of the three picked ones.
 func extraType() *evt.TypeOps {
 	for _, t := range evt.Pool {
@@ -129,6 +140,7 @@ func actions() []action {
 		{"PublishPanicsSequential", func(e *env) { bp.Types[2].Pub(e.bus, 66) }},
 		{"PublishPanicsAsyncSeq", func(e *env) { extraType().Pub(e.bus, 66) }},
 		{"SubscribeOtherShard", func(e *env) { bp.Types[2].Sub(e.bus, 1, evt.SubOpts{}) }},
+		{"PublishAsyncThatPublishes", func(e *env) { bp.Types[1].Pub(e.bus, 44) }},
 		{"Subscribe", func(e *env) { bp.Types[0].Sub(e.bus, 1, evt.SubOpts{}) }},
 		{"SubscribeAsync", func(e *env) { bp.Types[1].Sub(e.bus, 1, evt.SubOpts{Async: true}) }},
 		{"Unsubscribe", func(e *env) { bp.Types[0].Unsub(e.bus, 0, false) }},
@@ -163,6 +175,9 @@ func actions() []action {
 		{"MaterializerLastOffset", func(e *env) { e.mat.LastOffset() }},
 		{"RegisterCollection", func(e *env) {
 			state.RegisterCollection(e.mat, state.NewTypedCollectionWithType[User](state.NewMemoryStore[User](), "other"))
+		}},
+		{"RegisterCollectionAgain", func(e *env) {
+			state.RegisterCollection(e.mat, state.NewTypedCollection[User](state.NewMemoryStore[User]()))
 		}},
 		{"CollectionRead", func(e *env) { e.coll.Get("k"); e.coll.All() }},
 		{"StateStoreOps", func(e *env) { e.sstore.Set("x", User{}); e.sstore.Get("x"); e.sstore.Delete("x"); e.sstore.All() }},
